@@ -13,7 +13,8 @@ around `mcu.NewPublisher` / `mcu.NewSubscriber`:
     `s.mu`: the maps are dropped, every object that was in them is closed by a
     goroutine (`doClose`), `mcuGeneration` is incremented;
   * `closeAndWait` is three steps (`closeCancel`: the context is cancelled,
-    `closeLeave`: `hub.removeSession` leaves the room, `closeRelease`);
+    `closeLeave`: `hub.removeSession` leaves the room, `closeRelease`); `Close()`
+    may be called again on a closed session (it leaves and releases again);
   * `processAsyncMessage("permissions")` is `setPerms` (under `s.mu`) followed
     later by the revocation goroutine (`sweep`, under `s.mu`).
 
@@ -81,8 +82,12 @@ structure Pending where
   deriving DecidableEq, Repr
 
 structure Sess where
-  /-- 0 = live, 1 = context cancelled, 2 = removed from the hub (room left), 3 = released -/
-  closePc : Nat
+  /-- the context is cancelled: `Close()` was called at least once -/
+  closed : Bool
+  /-- `Close()` calls that have cancelled the context but not yet left the room (`hub.removeSession`) -/
+  needLeave : Nat
+  /-- `Close()` calls that have left the room but not yet released the media objects -/
+  needRelease : Nat
   room : Option Nat
   inCall : Bool
   /-- `mcuGeneration`: number of `releaseMcuObjects` calls so far -/
@@ -112,7 +117,7 @@ def Perms.oldStyle : Perms :=
   { media := oldStylePerm 0, audio := oldStylePerm 1, video := oldStylePerm 2, screen := oldStylePerm 3 }
 
 def Sess.init : Sess :=
-  { closePc := 0, room := none, inCall := false, epoch := 0, perms := Perms.oldStyle,
+  { closed := false, needLeave := 0, needRelease := 0, room := none, inCall := false, epoch := 0, perms := Perms.oldStyle,
     objs := fun _ => none, sweeps := 0 }
 
 def State.init : State :=
@@ -269,8 +274,8 @@ def beginCreate (st : State) (s : Nat) (kd : Kind) (m : Media) : State :=
 def recheckOk (cfg : Cfg) (st : State) (p : Pending) : Bool :=
   let s := st.sess p.owner
   match p.kind with
-  | .pub t => !cfg.recheckPub || (s.closePc == 0 && s.epoch == p.stamp && permittedPub s.perms t p.media)
-  | .sub _ _ => !cfg.recheckSub || (s.closePc == 0 && s.epoch == p.stamp)
+  | .pub t => !cfg.recheckPub || (!s.closed && s.epoch == p.stamp && permittedPub s.perms t p.media)
+  | .sub _ _ => !cfg.recheckSub || (!s.closed && s.epoch == p.stamp)
 
 def createEndOk (cfg : Cfg) (st : State) (p : Pending) : State :=
   let o : Obj := { id := p.id, owner := p.owner, kind := p.kind, media := p.media, stamp := p.stamp, isOpen := true }
@@ -290,11 +295,13 @@ def step (cfg : Cfg) (st : State) : Action → State
     | some _ => release st s
   | .leaveRoom s => leaveRoomStep st s
   | .closeCancel s =>
-    if (st.sess s).closePc = 0 then st.upd s fun x => { x with closePc := 1 } else st
+    st.upd s fun x => { x with closed := true, needLeave := x.needLeave + 1 }
   | .closeLeave s =>
-    if (st.sess s).closePc = 1 then (leaveRoomStep st s).upd s fun x => { x with closePc := 2 } else st
+    if (st.sess s).needLeave = 0 then st
+    else (leaveRoomStep st s).upd s fun x => { x with needLeave := x.needLeave - 1, needRelease := x.needRelease + 1 }
   | .closeRelease s =>
-    if (st.sess s).closePc = 2 then (release st s).upd s fun x => { x with closePc := 3 } else st
+    if (st.sess s).needRelease = 0 then st
+    else (release st s).upd s fun x => { x with needRelease := x.needRelease - 1 }
   | .setPerms s p => st.upd s fun x => { x with perms := p, sweeps := x.sweeps + 1 }
   | .sweep s =>
     if (st.sess s).sweeps = 0 then st
@@ -360,14 +367,17 @@ def opActions (st : State) : Op → List Action
   | .incall s b =>
     match (st.sess s).room with
     | none => []
-    | some _ => if b then [.inCallSet s true] else [.inCallSet s false, .leaveCall s]
+    | some _ =>
+      -- `Room.PublishUsersInCallChanged` looks the session up in the hub: a closed one is skipped
+      if (st.sess s).closed then []
+      else if b then [.inCallSet s true] else [.inCallSet s false, .leaveCall s]
   | .perms s p => [.setPerms s p, .sweep s]
   | .offer s (some t) m => [.offerBegin s t m]
   | .offer _ none _ => []
   | .request s p (some t) => if s ≠ p ∧ sameCall st s p then [.subBegin s p t] else []
   | .request _ _ none => []
   | .sendoffer p s (some t) =>
-    if p ≠ s ∧ (st.sess s).closePc = 0 ∧ allowedToSend (st.sess p).perms (some t) then [.subBegin s p t] else []
+    if p ≠ s ∧ (st.sess s).closed = false ∧ allowedToSend (st.sess p).perms (some t) then [.subBegin s p t] else []
   | .sendoffer _ _ none => []
   | .finish k o => [.createEnd k o]
   | .close s => [.closeCancel s, .closeLeave s, .closeRelease s]
@@ -396,10 +406,10 @@ def opOutput (cfg : Cfg) (st : State) : Op → String
       | none => "error"
   | .sendoffer p s t =>
     -- a live session never sends to itself; a closed one is no longer found and is treated like any absent recipient
-    if p = s ∧ (st.sess p).closePc = 0 then "self"
+    if p = s ∧ (st.sess p).closed = false then "self"
     else if !allowedToSend (st.sess p).perms t then "denied"
     else if p = s then "self"
-    else if (st.sess s).closePc ≠ 0 then "nosession"
+    else if (st.sess s).closed then "nosession"
     else match t with
       | some t => beginOutput st s (.sub p t)
       | none => "error"
@@ -412,7 +422,7 @@ def opOutput (cfg : Cfg) (st : State) : Op → String
         if !recheckOk cfg st p then
           let s := st.sess p.owner
           let gone := match p.kind with
-            | .pub _ => !(s.closePc == 0 && s.epoch == p.stamp)
+            | .pub _ => !(!s.closed && s.epoch == p.stamp)
             | .sub _ _ => true
           if gone then "closed client_not_found" else "closed not_allowed"
         else if ((st.sess p.owner).objs p.kind).isSome then "closed none"
